@@ -122,7 +122,7 @@ func (s Stage) render() string {
 			return fmt.Sprintf(" | drop %s=%s", s.Names[0], strconv.Quote(s.Str))
 		}
 		return " | drop " + strings.Join(s.Names, ", ")
-	case "rename":
+	case "rename", "copy":
 		return fmt.Sprintf(" | label_format %s=%s", s.Label, s.Str)
 	case "lineformat":
 		return fmt.Sprintf(` | line_format %s`, strconv.Quote(s.Str))
@@ -175,6 +175,10 @@ type refEntry struct {
 	ts     int64
 	line   string
 	val    float64
+	// optional: the line_format template fails for this entry (LogQL keeps the line unchanged and marks the entry, the
+	// server drops it): the entry may be absent or present with its line unchanged; what must not happen is that it
+	// changes any other entry
+	optional bool
 }
 
 func cloneLabels(m map[string]string) map[string]string {
@@ -341,7 +345,16 @@ func (p Prog) evalPipeline(in []refEntry) []refEntry {
 					delete(e.labels, s.Str)
 				}
 			case "lineformat":
-				e.line = renderTpl(s.Str, e.labels, e.line)
+				if l, ok := renderTpl(s.Str, e.labels, e.line); ok {
+					e.line = l
+				} else {
+					e.optional = true
+				}
+			case "copy":
+				// label_format dst=src as both engines implement it: dst takes the value of src when src has one; src stays
+				if v := e.labels[s.Str]; v != "" {
+					e.labels[s.Label] = v
+				}
 			}
 			if !keep {
 				break
@@ -367,16 +380,43 @@ func (p Prog) evalPipeline(in []refEntry) []refEntry {
 	return out
 }
 
-var reTplVar = regexp.MustCompile(`\{\{\.([a-zA-Z_]+)\}\}`)
+var reTplVar = regexp.MustCompile(`\{\{ ?(substr (-?[0-9]+) (-?[0-9]+) )?\.([a-zA-Z_]+) ?\}\}`)
 
-func renderTpl(tpl string, labels map[string]string, line string) string {
-	return reTplVar.ReplaceAllStringFunc(tpl, func(m string) string {
-		k := reTplVar.FindStringSubmatch(m)[1]
-		if k == "_entry" {
-			return line
+// renderTpl evaluates the templates the generator draws: {{.label}}, {{._entry}} and {{ substr a b .label }} with the
+// semantics of sprig's substr (a slice expression that panics - a template execution error - when out of range).
+func renderTpl(tpl string, labels map[string]string, line string) (res string, ok bool) {
+	ok = true
+	res = reTplVar.ReplaceAllStringFunc(tpl, func(m string) string {
+		g := reTplVar.FindStringSubmatch(m)
+		v := labels[g[4]]
+		if g[4] == "_entry" {
+			v = line
 		}
-		return labels[k]
+		if g[1] == "" {
+			return v
+		}
+		a, _ := strconv.Atoi(g[2])
+		b, _ := strconv.Atoi(g[3])
+		switch {
+		case a < 0:
+			if b < 0 || b > len(v) {
+				ok = false
+				return ""
+			}
+			return v[:b]
+		case b < 0 || b > len(v):
+			if a > len(v) {
+				ok = false
+				return ""
+			}
+			return v[a:]
+		case a > b:
+			ok = false
+			return ""
+		}
+		return v[a:b]
 	})
+	return res, ok
 }
 
 type refPoint struct {
@@ -570,7 +610,7 @@ func genC09(rt *rapid.T) C09Scenario {
 		l := fmt.Sprintf("st%d", i)
 		kinds := []string{"linefilter"}
 		if parsed {
-			kinds = []string{"linefilter", "labelfilter", "labelfilter", "drop"}
+			kinds = []string{"linefilter", "labelfilter", "labelfilter", "drop", "copy", "lineformat"}
 		}
 		st := Stage{Kind: rapid.SampledFrom(kinds).Draw(rt, l+".kind")}
 		switch st.Kind {
@@ -599,8 +639,11 @@ func genC09(rt *rapid.T) C09Scenario {
 			if rapid.IntRange(0, 2).Draw(rt, l+".dv?") == 0 {
 				st.Str = rapid.SampledFrom([]string{"x", "info", "hello", "s0"}).Draw(rt, l+".dv")
 			}
-		case "rename":
-			st.Label, st.Str = rapid.SampledFrom([]string{"lvl", "message"}).Draw(rt, l+".dst"), rapid.SampledFrom([]string{"level", "msg"}).Draw(rt, l+".src")
+		case "rename", "copy":
+			st.Label, st.Str = rapid.SampledFrom([]string{"lvl", "message", "msg"}).Draw(rt, l+".dst"), rapid.SampledFrom([]string{"level", "msg", "nope"}).Draw(rt, l+".src")
+		case "lineformat":
+			// the last template fails at execution for lines whose level has fewer than four bytes (or none)
+			st.Str = rapid.SampledFrom([]string{"{{.level}} {{._entry}}", "{{.series}}:{{.v}}", "{{.msg}} lvl={{ substr 4 -1 .level }}", "{{ substr 0 3 .level }}|{{.msg}}"}).Draw(rt, l+".tpl")
 		}
 		p.Stages = append(p.Stages, st)
 	}
@@ -634,6 +677,15 @@ func genC09(rt *rapid.T) C09Scenario {
 		if rapid.IntRange(0, 3).Draw(rt, "cmp?") == 0 {
 			p.Cmp = rapid.SampledFrom([]string{">", ">=", "<", "<=", "==", "!="}).Draw(rt, "cmp")
 			p.CmpVal = rapid.SampledFrom([]float64{0, 1, 2, 5}).Draw(rt, "cmpv")
+		}
+	}
+	if p.RangeFn != "" {
+		// an entry whose template fails may be dropped or kept: not decidable for counts and sums, so metric queries
+		// format with templates that cannot fail
+		for i := range p.Stages {
+			if p.Stages[i].Kind == "lineformat" && strings.Contains(p.Stages[i].Str, "substr 4") {
+				p.Stages[i].Str = "{{.level}} {{._entry}}"
+			}
 		}
 	}
 	s.Prog = p
@@ -846,8 +898,12 @@ func c09body(ri *simcheck.RunInfo, s C09Scenario) {
 	ri.Probes["entries-after-pipeline"] += len(expEntries)
 	if !isMetric {
 		want := map[string]int{}
+		nOpt := 0
 		for _, e := range expEntries {
 			want[fmt.Sprintf("%s|%d|%s", labelKey(e.labels), e.ts, e.line)]++
+			if e.optional {
+				nOpt++
+			}
 		}
 		got := map[string]int{}
 		ngot := 0
@@ -879,11 +935,14 @@ func c09body(ri *simcheck.RunInfo, s C09Scenario) {
 				return
 			}
 		}
-		wantN := len(expEntries)
+		wantN, wantMin := len(expEntries), len(expEntries)-nOpt
 		if s.Limit > 0 && s.Limit < wantN {
 			wantN = s.Limit
 		}
-		if ngot != wantN {
+		if s.Limit > 0 && s.Limit < wantMin {
+			wantMin = s.Limit
+		}
+		if ngot > wantN || ngot < wantMin {
 			add("entries-missing", "in-process pipeline loses or limits entries differently from the definition: "+classOfProg(p),
 				fmt.Sprintf("query %q limit=%d: returned %d entries, reference says %d of %d", req.Query, s.Limit, ngot, wantN, len(expEntries)))
 		}
